@@ -232,6 +232,36 @@ def cli_scenarios():
         rc, out, err = run_cli([lt])
         if rc != 0 or len(out) > len(lat):
             failures.append({'scenario': 'latin-1 source: output longer than input', 'rc': rc, 'in_bytes': len(lat), 'out_bytes': len(out)})
+        # 5c compact modules in every line-ending convention, with and without a final newline, through every output mode: never more bytes than read;
+        #    also with the opt-in removal flags (the size rule does not depend on the flags)
+        compact = [b'a=1;b=2;c=3;d=4', b'True if 0in x else False', b'x=1\ny=2', b'if a:b=1']
+        k = 0
+        for body in compact:
+            for nl in (b'\n', b'\r\n', b'\r'):
+                for final, split in ((b'', False), (nl, False), (nl, True)):
+                    data = body.replace(b'\n', nl) + final
+                    if split:
+                        if not body.count(b';'):
+                            continue
+                        data = body.replace(b';', nl) + final
+                    k += 1
+                    try:
+                        import warnings as _w
+                        with _w.catch_warnings():
+                            _w.simplefilter('ignore')
+                            compile(data, 'm', 'exec')
+                    except SyntaxError:
+                        continue
+                    for extra in ([], ['--remove-asserts'], ['--remove-literal-statements', '--remove-debug']):
+                        f1 = w('nb/c%d.py' % k, data)
+                        rc, out, err = run_cli([f1] + extra)
+                        if rc != 0 or len(out) > len(data):
+                            failures.append({'scenario': 'compact module to stdout: more bytes written than read', 'source': repr(data), 'flags': extra, 'rc': rc,
+                                             'in_bytes': len(data), 'out_bytes': len(out)})
+                        rc, out, err = run_cli([f1, '--in-place'] + extra)
+                        if rc != 0 or len(r(f1)) > len(data):
+                            failures.append({'scenario': 'compact module in place: file grew', 'source': repr(data), 'flags': extra, 'rc': rc, 'in_bytes': len(data),
+                                             'out_bytes': len(r(f1))})
         # 6 invalid combinations
         for argv in ([a, t], ['-', a], ['-', '--in-place'], [os.path.join(tmp, 'tree')],
                      [a, '--remove-class-attribute-annotations', '--no-remove-annotations']):
